@@ -1,12 +1,54 @@
 """C04 - HTTP data transforms follow the wire format and are invertible (structural part).
 
 The two sibling dispatchers HttpDataTransform.transform / .recover are not matched syntactically.  Each loop body is
-*executed symbolically* once per step name the binary parsers can emit (the loop's step variable bound to the literal
-name, the step argument and every loop-carried local bound to symbols): branch tests are decided by constant folding,
-by the facts collected on the path and by a small type inference; undecidable tests (``isinstance(arg, int)``, asserts,
-conditional expressions) fork the path.  The result - per step a handful of paths, each with the final symbolic value of
-every loop-carried local - is what the rules look at.  It is independent of branch order, elif-vs-guard-clause layout,
-merged branches, temporaries and (engine-inlined) helpers.
+walked path-wise ONCE per step name of the finite step vocabulary (the opcode names of the reference tables, in the
+upper-case spelling the binary parsers emit and in lower case, plus the string literals the loop body itself compares
+with) and once for the abstract "any other name" case.  For such a walk the loop's step variable is replaced by that
+literal (constant propagation into the dispatcher); the step argument, the payload accumulator and every other
+loop-carried local are free symbols; definitions are substituted into uses; branch tests are decided three-valued by
+constant folding of constant expressions, by the facts collected on the path and by a small type inference; tests that
+stay unknown (``isinstance(arg, int)``, asserts, conditional expressions) fork the path and are recorded as facts.  The
+result - per step a handful of paths, each with the final symbolic *term* of every loop-carried local - is what the rules
+compare structurally.  It is independent of branch order, elif-vs-guard-clause layout, merged branches, temporaries and
+(engine-inlined) helpers.  No loop is unrolled (nested loops, try, with, match make a path `opaque` -> undecided), no
+payload, byte-string argument, request or step program is ever given a concrete value (the only argument that is
+specialised is the `build` selector in R7: one case per literal of the selector vocabulary), no function of /repo is run.
+
+Technique (numbers = allowed devices of RULES_GUIDE "What counts as static here")
+---------------------------------------------------------------------------------
+core  path walker `_Sym`/`_Side`: (2) three-valued branch pruning under the named assumptions STEP = <literal> / OTHER,
+      (3) def-use substitution into symbolic terms, loop body analysed once with symbolic loop-carried values, path-wise
+      value flow with symbolic branch outcomes kept as path facts, (5) one case per literal of the step vocabulary plus
+      one "any other value" case, (6) folding of constant expressions only (`"APPEND".lower()`, `b"=" * 2`, `(a, b)[0]`).
+      Assumption OTHER (the abstract unknown step name `%other`): it is a str and every ==/!=/in/not in between it - also
+      under str()/lower/upper/casefold/strip - and constants is false/true/false/true.  Lemma: the comparisons mention
+      finitely many literals, so such strings exist (any blank-free ASCII word not case-equivalent to one of them).
+R1    (1) loop located by role (the `for` over self.tsteps / self.rsteps), (5) which vocabulary literals have a normally
+      completing path on each side, compared as sets with each other and with the reference opcode tables (6); the OTHER
+      case must end in `raise ValueError` on every path (2, 3).
+R2    (3) final accumulator term per codec step peeled structurally into codec call / case mapping / constant padding
+      layers; (1) callee resolution; (6) comparison with the reference inverse-pair table; constant padding folded (6).
+      Lemma base64-pad: Cobalt Strike strips at most two '=', CPython's decoders ignore surplus '=', hence `data + b"="*k`
+      with k >= 2 repairs every stripped input (trusted base64 semantics).
+R3    (3) terms of the request-field locals and of the accumulator after placement steps, compared structurally
+      (`%setitem(field, arg, acc)`, `uri + acc`, `http.<field>[arg]`); (6) reference placement table.
+R4    (3) terms written by the static decorations; taint = the accumulator symbol occurs in the term (1); split shape
+      `arg.partition(sep)[i]` / `arg.split(sep, 1)[i]` compared with the reference separators.  Lemma split:
+      `x.partition(s)[0], [2]` and `x.split(s, 1)[0], [1]` are the parts before/after the FIRST s; rpartition/rsplit the last.
+R5    (3) accumulator terms `acc + x` / `x + acc` (operand order), slice terms `acc[lo:hi]`; (4) slice bounds classified
+      in polynomial normal form (`sympoly`) over the atoms arg, len(arg), len(acc); non-zero knowledge from path facts (2).
+      Lemmas: slice-drop `x[:len(x)-n]` is x without its last n bytes for 0 <= n <= len(x); neg-zero `x[:-n]` equals that
+      only for n > 0 because `-0 == 0` and `x[:0] == b""`; or-none `x[:-n or None]` equals it for all n >= 0 because
+      `-0 or None` is None; filler `b"c" * n` and `bytes(n)` are n bytes long for an int n >= 0.
+R6    (3) terms `key + xor(acc, key)` / `xor(acc[k:], acc[:k])` compared structurally, the random key is one fresh symbol
+      per evaluation (two draws are two symbols); (1) `utils.xor`/`utils.pack` resolved incl. functools.partial keywords;
+      (6) key length from constants.  Lemma key-length: `n.to_bytes(k, ..)`, `os.urandom(k)`, `utils.pack(.., size=k)` are k
+      bytes long, `struct.pack(fmt, ..)` is `struct.calcsize(fmt)` bytes long (fmt a constant of the analysed code).
+R7    (5) one case per build selector of the reference vocabulary (output, id, metadata) with the payload symbolic; (3)
+      which C2Data attribute the accumulator term reads / which local receives the accumulator, and the keyword terms of
+      the returned constructor; (2) isinstance facts on the returning path.  Constructor: (3) path-wise terms of
+      self.tsteps / self.rsteps with object identities for fresh lists, orientation by structural rules (`x[::-1]`,
+      `reversed(x)` flip; `list(x)`, `x[:]`, `x.copy()` keep), recorded list mutations insert(0, .)/append(.).
 """
 
 from __future__ import annotations
@@ -31,8 +73,15 @@ def _noenv(name):
     raise KeyError(name)
 
 
-# ============================================================================================ symbolic execution core
+# ============================================================================================ path-wise value flow core
 _STEP, _ARG = "%step", "%arg"
+# The abstract "any other value" case of the step dispatch (policy device 5).  Named assumption OTHER: `%other` is a str that
+# differs, itself and under str()/lower/upper/casefold/strip, from every constant it is compared with for (in)equality or
+# membership.  Lemma (inhabited): the dispatcher compares with finitely many literals, so such strings exist - any ASCII
+# word without blanks that is not case-equivalent to one of them; for it every `==`/`in` against those literals is false.
+# No sample string is ever compared: the tests are decided by this rule, everything else about `%other` stays unknown.
+_OTHER = "%other"
+_CASEMAPS = ("lower", "upper", "casefold", "strip", "lstrip", "rstrip")
 _MUTATORS = {"update", "setdefault", "pop", "popitem", "append", "insert", "extend", "clear", "remove", "add", "discard", "reverse", "sort",
              "__setitem__", "__delitem__"}
 _IMPURE = ("random.", "os.urandom", "secrets.", "time.", "uuid.")
@@ -90,6 +139,34 @@ def _tnames(t: ast.AST) -> Optional[set]:
         return out
     d = dotted(t)
     return {d} if d else None
+
+
+def _other_term(e: ast.AST) -> bool:
+    """Is e the abstract other step name, possibly under str() / a case mapping / strip?"""
+    for _ in range(8):
+        if isinstance(e, ast.Name):
+            return e.id == _OTHER
+        if isinstance(e, ast.Call) and isinstance(e.func, ast.Attribute) and e.func.attr in _CASEMAPS and not e.args and not e.keywords:
+            e = e.func.value
+        elif isinstance(e, ast.Call) and dotted(e.func) == "str" and len(e.args) == 1 and not e.keywords:
+            e = e.args[0]
+        else:
+            return False
+    return False
+
+
+def _other_cmp(l: ast.AST, op: ast.AST, r: ast.AST) -> Optional[bool]:
+    """Assumption OTHER applied to one comparison; None when it says nothing about it."""
+    if isinstance(op, (ast.Eq, ast.NotEq)):
+        if (_other_term(l) and _cv(r) is not _NC) or (_other_term(r) and _cv(l) is not _NC):
+            return isinstance(op, ast.NotEq)
+    if isinstance(op, (ast.In, ast.NotIn)) and _other_term(l):
+        v = _cv(r)
+        lit = isinstance(v, (tuple, list, set, frozenset, dict)) or (
+            isinstance(r, ast.Dict) and all(k is not None and _cv(k) is not _NC for k in r.keys))
+        if lit:
+            return isinstance(op, ast.NotIn)
+    return None
 
 
 class _Path:
@@ -157,7 +234,8 @@ class _Subst(ast.NodeTransformer):
 
 
 class _Sym:
-    """Path-forking symbolic executor over a function's statements (no loops: nested loops make a path `opaque`)."""
+    """Path-wise value flow over a function's statements: definitions substituted into symbolic terms, unknown tests fork the
+    path and become facts, nothing concrete is computed except constant expressions (no loops: nested loops make a path `opaque`)."""
 
     def __init__(self, ctx, f, objects: bool = False, budget: int = 96):
         self.ctx, self.f, self.objects, self.budget = ctx, f, objects, budget
@@ -206,6 +284,8 @@ class _Sym:
                     return {"str"}
                 if e.func.attr in ("partition", "rpartition"):
                     return {"tuple"}
+        if _other_term(e):
+            return {"str"}
         k = src(e)
         out = None
         for fe, pol in p.fnodes:
@@ -245,6 +325,9 @@ class _Sym:
             return f
         if isinstance(e, ast.Compare) and len(e.ops) == 1:
             l, op, r = e.left, e.ops[0], e.comparators[0]
+            t = _other_cmp(l, op, r)
+            if t is not None:
+                return t
             a, b = _cv(l), _cv(r)
             if a is not _NC and b is not _NC:
                 try:
@@ -719,7 +802,7 @@ class _Side:
         self.pre: Optional[_Path] = None
         self.carried: set = set()
         self.acc: Optional[str] = None
-        self._cache: Dict[Tuple[str, str], List[_Path]] = {}
+        self._cache: Dict[Tuple[Optional[str], str], List[_Path]] = {}
         self._post: Optional[List[_Path]] = None
         self._locate()
 
@@ -779,21 +862,27 @@ class _Side:
         return None
 
     # ------------------------------------------------------------------ running
-    def start(self, step: str, arg: Optional[ast.AST] = None) -> _Path:
+    def start(self, step: Optional[str], arg: Optional[ast.AST] = None) -> _Path:
+        """Entry state of one iteration: step name = the given literal (None: the abstract `%other` name), argument and
+        loop-carried locals symbolic."""
         p = self.pre.copy()
         for n in self.carried:
             p.env[n] = _name(n)
             for k in [k for k in p.env if k.startswith(n + ".")]:
                 del p.env[k]
         elem = copy.deepcopy(self._elem)
-        sub = {_STEP: ast.Constant(value=step)}
+        sub = {_STEP: ast.Constant(value=step) if step is not None else _name(_OTHER)}
         if arg is not None:
             sub[_ARG] = arg
         elem = _Subst(sub).visit(elem)
         self.ex._store(self.loop.target, elem, p)
         return p
 
-    def run(self, step: str, arg: Optional[ast.AST] = None) -> List[_Path]:
+    def other(self) -> List[_Path]:
+        """Paths of the "any other step name" case (assumption OTHER; nothing concrete is substituted)."""
+        return self.run(None)
+
+    def run(self, step: Optional[str], arg: Optional[ast.AST] = None) -> List[_Path]:
         k = (step, src(arg) if arg is not None else "")
         if k not in self._cache:
             self._cache[k] = self.ex.run(self.loop.body, self.start(step, arg))
@@ -883,7 +972,6 @@ def _opaque(paths: List[_Path]) -> List[str]:
 
 # ============================================================================================ the property's rules
 _FIELDS = ("uri", "params", "headers", "body")
-_BOGUS = "\x00no-such-step"
 _ST: Dict[str, object] = {}  # per-run state shared by the rule functions (roles located by run())
 
 
@@ -891,14 +979,30 @@ def run(ctx):
     rep = ctx.rep
     rep.explanation = (
         "Static cross-check of the sibling dispatchers HttpDataTransform.transform / .recover in c2.py: each loop body is "
-        "executed symbolically once per step name the binary parsers can emit (path forking on undecidable tests), giving "
-        "per step the final value of the payload accumulator and of the request fields.  These summaries must cover "
+        "walked path-wise once per literal of the step vocabulary (reference opcode names and the literals the code "
+        "compares with) and once for the abstract 'any other name' case - the step name is the only thing specialised; "
+        "step argument, payload and all loop-carried locals stay symbols, definitions are substituted, unknown tests fork "
+        "the path - giving per step the final symbolic term of the payload accumulator and of the request fields.  "
+        "Nothing is evaluated on concrete payloads, byte arguments or programs (the build selector is the only argument "
+        "specialised, per literal of its vocabulary).  These summaries must cover "
         "everything the parsers emit, pair each encoder with its reference decoder, write and read the same HTTP "
         "location, keep static decorations away from the payload, mirror prepend/append sides (including the `x[:-n]` "
         "zero hazard), use one mask length, and bind build selectors to the like-named C2Data fields."
     )
-    rep.not_decided = ["round-trip equality for all programs and payloads", "base64 padding repair", "uri_append recovering the whole URI (value-level)"]
-    rep.trusted_base = ["CPython ast", "reference inverse-pair/placement tables in csverif/tables.py", "base64/urllib semantics"]
+    rep.not_decided = ["round-trip equality for all programs and payloads (only the per-step structural necessary conditions are decided)",
+                       "correctness of the codecs themselves (base64 module, utils.netbios_*, utils.xor bodies)",
+                       "uri_append recovering the whole URI (value-level)",
+                       "dispatchers with nested loops / try / with / match or table-driven dispatch (reported undecided)"]
+    rep.trusted_base = [
+        "CPython ast", "reference opcode / inverse-pair / placement tables in csverif/tables.py and the selector and separator tables of this module",
+        "assumption OTHER: the abstract unknown step name is a str unequal (also after str/lower/upper/casefold/strip) to every constant it is compared with; "
+        "inhabited because only finitely many literals are compared",
+        "lemma base64-pad: at most two '=' are stripped and CPython's base64 decoders ignore surplus padding, so appending >= 2 '=' repairs the input",
+        "lemma split: partition(s)[0]/[2] and split(s, 1)[0]/[1] split at the first s, rpartition/rsplit at the last",
+        "lemmas slice-drop / neg-zero / or-none: x[:len(x)-n] drops the last n bytes for 0 <= n <= len(x); x[:-n] does so only for n > 0 (x[:-0] == b''); x[:-n or None] for all n >= 0",
+        "lemma filler: b'c' * n and bytes(n) have length n for an int n >= 0",
+        "lemma key-length: n.to_bytes(k, ..), os.urandom(k), utils.pack(.., size=k) have length k; struct.pack(fmt, ..) has length struct.calcsize(fmt)",
+    ]
     T = ctx.repo.func("c2.HttpDataTransform.transform")
     R = ctx.repo.func("c2.HttpDataTransform.recover")
     tt, rt = _Side(ctx, T, "tsteps"), _Side(ctx, R, "rsteps")
@@ -933,7 +1037,7 @@ def run(ctx):
         diff = sorted(n for n in vocab if s.handles(n.upper()) != s.handles(n.lower()))
         ctx.ob("R1", "AGREE", f, f"{side} case-insensitive step dispatch", not diff,
                "step names are case-normalised before dispatch" if not diff else f"upper- and lower-case spellings are dispatched differently: {diff} (the parsers emit upper-case enum names)")
-    r1(ctx, T, R, tt, rt, tt.run(_BOGUS), rt.run(_BOGUS))
+    r1(ctx, T, R, tt, rt, tt.other(), rt.other())
     r2(ctx, T, R, tt, rt)
     r3(ctx, T, R, tt, rt, _ARG, _ARG)
     r4(ctx, T, R, tt, rt, _ARG)
